@@ -46,6 +46,8 @@ struct Sandbox {
     _td: tempfile::TempDir,
     parent: PathBuf, // "/S"
     root: PathBuf,   // "/S/d1/d2/cache"
+    /// where the listings start: `parent`, or (deep sandbox) `DEEP_LEVELS` directories above it
+    top: PathBuf,
     /// `real` replaced a "/S" that stands behind padding characters (see `PADS`)
     padded: std::cell::Cell<bool>,
 }
@@ -77,7 +79,21 @@ impl Sandbox {
         let parent = td.path().canonicalize().expect("canon");
         let root = parent.join("d1").join("d2").join("cache");
         std::fs::create_dir_all(&root).unwrap();
-        Sandbox { _td: td, parent, root, padded: std::cell::Cell::new(false) }
+        Sandbox { _td: td, top: parent.clone(), parent, root, padded: std::cell::Cell::new(false) }
+    }
+    /// "/S" lies `DEEP_LEVELS` directories below the scratch directory and the listings cover all
+    /// of them: for texts that the unchanged code puts behind several fixed directory levels (the
+    /// archive key of a CDN index stands seven levels below the cache directory), where leaving
+    /// the root takes more ".." segments than the ordinary guard lets through. Entries above "/S"
+    /// are printed as "/ABOVE-S/…".
+    fn deep() -> Sandbox {
+        let td = tempfile::tempdir().expect("tempdir");
+        let top = td.path().canonicalize().expect("canon");
+        let mut parent = top.clone();
+        for i in 0..DEEP_LEVELS { parent.push(format!("q{i}")); }
+        let root = parent.join("d1").join("d2").join("cache");
+        std::fs::create_dir_all(&root).unwrap();
+        Sandbox { _td: td, parent, root, top, padded: std::cell::Cell::new(false) }
     }
     /// "/S/..." -> real path string (only for strings that start with the abstract prefix,
     /// possibly behind padding characters: `" /S/evil"` -> `" <parent>/evil"`)
@@ -100,7 +116,11 @@ impl Sandbox {
     /// name (the unchanged code treats `" /S/evil"` as the relative name `" "/S/evil`): it is
     /// written back as "/S" there too.
     fn abs(&self, p: &Path) -> String {
-        let rel = p.strip_prefix(&self.parent).expect("entry inside sandbox");
+        let Ok(rel) = p.strip_prefix(&self.parent) else {
+            // deep sandbox: an entry between the scratch directory and "/S"
+            let up = p.strip_prefix(&self.top).expect("entry inside sandbox");
+            return format!("/ABOVE-S/{}", up.to_string_lossy());
+        };
         let r = rel.to_string_lossy();
         let r = if self.padded.get() { r.replace(&*self.parent.to_string_lossy(), "/S") } else { r.into_owned() };
         if r.is_empty() { "/S".to_string() } else { format!("/S/{r}") }
@@ -135,7 +155,9 @@ impl Sandbox {
             }
         }
         let mut s = Snap::new();
-        walk(&self.parent, &mut s);
+        walk(&self.top, &mut s);
+        // deep sandbox: the chain of directories leading down to "/S" is scaffolding
+        s.retain(|p, _| !self.parent.starts_with(p));
         s
     }
 }
@@ -187,6 +209,14 @@ fn dd(s: &str) -> usize {
         }
     }
     n
+}
+/// the deep sandbox (`Sandbox::deep`): "/S" has this many scratch directories above it, and a call
+/// is run when its strings hold at most `DEEP_DD` ".." together (9 above "/S" + the 3 levels of
+/// d1/d2/cache, even if every fixed prefix were dropped on the way)
+const DEEP_LEVELS: usize = 12;
+const DEEP_DD: usize = 12;
+fn unsafe_deep(other: &[&str]) -> bool {
+    other.iter().map(|s| dd(s)).sum::<usize>() > DEEP_DD
 }
 /// `direct`: strings that are joined onto the root as they are (an absolute one replaces it).
 fn unsafe_args(direct: &[&str], other: &[&str]) -> bool {
@@ -792,7 +822,7 @@ fn run_line(s: &mut Session, ctx: &mut Ctx, req: &str) -> Option<String> {
                     check_confined(s, "disk", &refs, &d, req);
                     if ok && d.new_files.len() == 1 {
                         // identity of a typed key = its field values, not the text they print to
-                        let ident = format!("{kind}({}) = {text:?}", args.iter().map(|a| if *a == "~" { "None".to_string() } else { dec_tok(a).filter(|_| !matches!(*kind, "blte" | "content" | "root" | "encoding" | "blteblock")).map(|x| format!("{x:?}")).unwrap_or_else(|| a.to_string()) }).collect::<Vec<_>>().join(", "));
+                        let ident = format!("{kind}({}) = {text:?}", args.iter().enumerate().map(|(i, a)| if *a == "~" { "None".to_string() } else { dec_tok(a).filter(|_| !matches!(*kind, "blte" | "content" | "root" | "encoding" | "blteblock") && !(*kind == "archive" && i > 0)).map(|x| format!("{x:?}")).unwrap_or_else(|| a.to_string()) }).collect::<Vec<_>>().join(", "));
                         note_final(s, ctx, layout, &d.new_files[0], &ident, wf, req);
                         // search heuristic, not a verdict: the file of a well-formed key is
                         // <root>[/hh…]/<key text> as long as names are used as they are; the first
@@ -917,10 +947,13 @@ fn run_line(s: &mut Session, ctx: &mut Ctx, req: &str) -> Option<String> {
                 }
             }
         }
-        ["query", e] => {
+        // queryd = query in the deep sandbox (guard: `unsafe_deep`)
+        [op @ ("query" | "queryd"), e] => {
             let ep = dec_tok(e)?;
-            if unsafe_args(&[], &[&ep]) { return Some("unsafe-skip".into()); }
-            let sb = Sandbox::new();
+            let deep = *op == "queryd";
+            if deep { if unsafe_deep(&[&ep]) { return Some("unsafe-skip".into()); } }
+            else if unsafe_args(&[], &[&ep]) { return Some("unsafe-skip".into()); }
+            let sb = if deep { Sandbox::deep() } else { Sandbox::new() };
             let before = sb.snap();
             let addr = ctx.srv.addr.clone();
             let r = catch(AssertUnwindSafe(|| {
@@ -959,9 +992,12 @@ fn run_line(s: &mut Session, ctx: &mut Ctx, req: &str) -> Option<String> {
             let host_s = if local { ctx.srv.addr.clone() } else { dec_tok(host)? };
             let path = dec_tok(path)?;
             let ep = CdnEndpoint { host: host_s, path: path.clone(), product_path: None, scheme: if local { Some("http".into()) } else { scheme }, is_fallback: false, strict: false, max_hosts: None };
-            let sb = Sandbox::new();
+            // indexd / isized = index / isize in the deep sandbox (guard: `unsafe_deep`)
+            let deep = matches!(*api, "indexd" | "isized");
+            let sb = if deep { Sandbox::deep() } else { Sandbox::new() };
             let before = sb.snap();
             *ctx.srv.seen.lock().unwrap() = Seen::default();
+            let mut archive_key: Option<String> = None;
             enum R { Unit(Result<(), ProtocolError>) }
             let mut hostile: Vec<String> = vec![path.clone()];
             let mut cu = false;
@@ -993,14 +1029,16 @@ fn run_line(s: &mut Session, ctx: &mut Ctx, req: &str) -> Option<String> {
                         R::Unit(ctx.rt.block_on(c.download_range(&ep, ct, &key, off, len)).map(|_| ()))
                     }))
                 }
-                ("index" | "isize", [ak, cuf]) => {
+                ("index" | "isize" | "indexd" | "isized", [ak, cuf]) => {
                     let ak = dec_tok(ak)?;
                     cu = *cuf == "cu=1";
                     hostile.push(ak.clone());
-                    if unsafe_args(&[], &[&path, &ak]) { return Some("unsafe-skip".into()); }
+                    archive_key = Some(ak.clone());
+                    if deep { if unsafe_deep(&[&path, &ak]) { return Some("unsafe-skip".into()); } }
+                    else if unsafe_args(&[], &[&path, &ak]) { return Some("unsafe-skip".into()); }
                     catch(AssertUnwindSafe(|| {
                         let c = CdnClient::new(protocol_cache(&sb.root), CdnConfig::default()).expect("cdn client");
-                        R::Unit(if *api == "index" { ctx.rt.block_on(c.download_archive_index(&ep, &ak)).map(|_| ()) } else { ctx.rt.block_on(c.get_index_size(&ep, &ak)).map(|_| ()) })
+                        R::Unit(if api.starts_with("index") { ctx.rt.block_on(c.download_archive_index(&ep, &ak)).map(|_| ()) } else { ctx.rt.block_on(c.get_index_size(&ep, &ak)).map(|_| ()) })
                     }))
                 }
                 _ => return None,
@@ -1008,8 +1046,25 @@ fn run_line(s: &mut Session, ctx: &mut Ctx, req: &str) -> Option<String> {
             let after = sb.snap();
             let d = diff(&sb, &before, &after);
             let refs: Vec<&str> = hostile.iter().map(|x| x.as_str()).collect();
-            check_confined(s, "cdn", &refs, &d, req);
             let seen = std::mem::take(&mut *ctx.srv.seen.lock().unwrap());
+            // the archive name (remote data: it comes from CDN configs): with a CDN path that is an
+            // ordinary relative one, whatever leaves the cache directory does so through the name
+            let plain_path = !path.starts_with('/') && path.split('/').all(|g| g != "..");
+            match &archive_key {
+                Some(ak) if plain_path && !d.outside.is_empty() => {
+                    s.oracle_fail("escape-archive-key", &format!("CdnClient::{} with CDN path {path:?} and archive key {ak:?}: entries created/removed outside the cache directory /S/d1/d2/cache: {:?}", if api.starts_with("index") { "download_archive_index" } else { "get_index_size" }, d.outside), &[req.to_string()]);
+                }
+                _ => check_confined(s, "cdn", &refs, &d, req),
+            }
+            // an archive key with a character that is no ASCII letter or digit (separators, dots,
+            // NUL, blanks, non-ASCII) or of fewer than 4 bytes never reaches the network or the cache
+            if let Some(ak) = &archive_key {
+                let plain = ak.len() >= 4 && ak.bytes().all(|b| b.is_ascii_alphanumeric());
+                let refused = matches!(&res, Ok(R::Unit(Err(ProtocolError::InvalidKey))));
+                if !plain && d.outside.is_empty() && (seen.target.is_some() || !(refused || res.is_err())) {
+                    s.oracle_fail("archive-key-accepted", &format!("CdnClient::{} with CDN path {path:?}: the archive key {ak:?} was not refused with InvalidKey ({}; request sent: {:?}; new files {:?})", if api.starts_with("index") { "download_archive_index" } else { "get_index_size" }, match &res { Ok(R::Unit(Ok(()))) => "Ok".to_string(), Ok(R::Unit(Err(e))) => perr(e).to_string(), Err(_) => "panic".into() }, seen.target, d.new_files), &[req.to_string()]);
+                }
+            }
             match res {
                 Err(m) => {
                     s.oracle_fail(&format!("panic-cdn-{api}"), &format!("CdnClient::{api} panicked: {m}"), &[req.to_string()]);
@@ -1020,7 +1075,7 @@ fn run_line(s: &mut Session, ctx: &mut Ctx, req: &str) -> Option<String> {
                     s.tally(&format!("cdn.{api}.ok"));
                     if want_range {
                         Some(format!("ok range={}", seen.range.as_deref().map(enc).unwrap_or("-".into())))
-                    } else if *api == "download" || *api == "index" {
+                    } else if *api == "download" || api.starts_with("index") {
                         Some(format!("{} url={}", fmt_put(true, &d), url_path(&seen.target, cu)))
                     } else {
                         Some(format!("ok url={}", url_path(&seen.target, cu)))
@@ -1842,6 +1897,126 @@ fn fmt_searches(s: &mut Session, ctx: &mut Ctx, thorough: bool) {
     }
 }
 
+// ---------------------------------------------------------------- validators that look at a subset
+/// Strings that satisfy a character-class validator (`v` = a long text it accepts, e.g. 32 hex
+/// digits) on a PREFIX of k characters, on a SUFFIX, on both ends or on every other position, and
+/// carry traversal / separator / NUL / absolute-path / non-ASCII material in the rest. `ups` = how
+/// many ".." segments the traversal tails hold (the text may stand several fixed directory levels
+/// below the root: the family must reach beyond them, see `Sandbox::deep`).
+fn partial_valid_forms(v: &str, ks: &[usize], ups: &[usize]) -> Vec<String> {
+    let mut out: Vec<String> = vec![];
+    for &k in ks {
+        let (head, tail) = (&v[..k], &v[v.len() - k..]);
+        for &n in ups {
+            let up = "../".repeat(n);
+            out.push(format!("{head}/{up}escaped"));
+            out.push(format!("{up}escaped/{tail}"));
+            out.push(format!("{up}{tail}"));
+            out.push(format!("{}/{up}escaped/{}", &head[..k.div_ceil(2)], &tail[k / 2..]));
+        }
+        for junk in ["\0", "/", "/.", "/..", "\\..\\..\\x", "/S/evil", "//S/evil", "%2f..%2f..%2fx", " ", "\n", ".index", "é", "\u{ff0e}\u{ff0e}\u{ff0f}x", ":", "?x=1", "#"] {
+            out.push(format!("{head}{junk}"));
+            out.push(format!("{junk}{tail}"));
+        }
+        out.push(format!("{head}/{tail}"));
+    }
+    // every other position
+    let c: Vec<char> = v.chars().take(6).collect();
+    for sep in ['/', '.', '\\', '\0'] {
+        let alt: String = c.iter().flat_map(|x| [*x, sep]).collect();
+        out.push(alt.clone());
+        out.push(format!("{sep}{alt}"));
+    }
+    out.sort();
+    out.dedup();
+    out
+}
+
+// ---------------------------------------------------------------- integer fields of the typed keys
+/// Typed-key argument lists that differ in ONE integer field (block index, page, version, start
+/// offset, length) by one bit: v and v ^ 2^k around several bases, so that a field that is
+/// narrowed (`as u32`, `as u16`, `as u8`), sign-converted, masked, or printed through a float
+/// (2^53 / 2^53 + 1, MAX / MAX - 1) on its way into the key text puts two keys into one file.
+/// `all`: every bit of every field (the text-level search); otherwise the stream subset
+/// 2^8, 2^16, 2^31, 2^32, 2^63.
+fn numeric_families(all: bool) -> Vec<(&'static str, Vec<String>)> {
+    fn values(width: u32, all: bool) -> Vec<u64> {
+        let max = if width == 64 { u64::MAX } else { (1u64 << width) - 1 };
+        let mut bases: Vec<u64> = vec![0, 4096 & max];
+        let ks: Vec<u32> = if all {
+            bases.extend([1, 0x0123_4567_89ab_cdef & max, max, (1u64 << 53) & max]);
+            (0..width).collect()
+        } else {
+            [4u32, 7, 8, 16, 31, 32, 63].into_iter().filter(|k| *k < width && (width > 8 || *k < 8) && (width == 8 || *k >= 8)).collect()
+        };
+        let mut v: Vec<u64> = vec![max, max - 1];
+        for b in bases {
+            v.push(b);
+            for k in &ks { v.push(b ^ (1u64 << k)); }
+        }
+        v.sort_unstable();
+        v.dedup();
+        v
+    }
+    let h = "0017a402f556fbece46c38dc431a2c9b";
+    let id = enc("data.001");
+    let s = |x: &str| x.to_string();
+    let mut out: Vec<(&'static str, Vec<String>)> = vec![];
+    for v in values(32, all) {
+        out.push(("blte", vec![s(h), v.to_string()]));
+        out.push(("encoding", vec![s(h), v.to_string(), s("0")]));
+        out.push(("encoding", vec![s(h), v.to_string(), s("1")]));
+        out.push(("blteblock", vec![s(h), v.to_string(), s("0")]));
+        out.push(("blteblock", vec![s(h), v.to_string(), s("1")]));
+        out.push(("archive", vec![id.clone(), s("4096"), v.to_string()]));
+    }
+    out.push(("blte", vec![s(h), s("~")]));
+    out.push(("encoding", vec![s(h), s("~"), s("0")]));
+    out.push(("encoding", vec![s(h), s("~"), s("1")]));
+    for v in values(8, all) {
+        out.push(("root", vec![s(h), s("0"), v.to_string()]));
+        out.push(("root", vec![s(h), s("1"), v.to_string()]));
+    }
+    out.push(("root", vec![s(h), s("0"), s("~")]));
+    out.push(("root", vec![s(h), s("1"), s("~")]));
+    for v in values(64, all) {
+        out.push(("archive", vec![id.clone(), v.to_string(), s("16")]));
+    }
+    // the two numbers of one key: same digits, the '+' at every position
+    for (a, b) in [(1u64, 234u64), (12, 34), (123, 4), (0, 1234), (1, 0), (10, 0), (0, 10)] {
+        out.push(("archive", vec![id.clone(), a.to_string(), b.to_string()]));
+    }
+    out.sort();
+    out.dedup();
+    out
+}
+
+/// text-level search over `numeric_families(true)`: two different argument lists of one key type
+/// with the same `as_cache_key` text are emitted as two ordinary `typed` lines (they share a file:
+/// `collide-wf` names both keys)
+fn numeric_search(s: &mut Session, ctx: &mut Ctx) {
+    let sb0 = Sandbox::new(); // not used: the key text is computed without running anything
+    let fam = numeric_families(true);
+    let mut seen: HashMap<String, usize> = HashMap::new();
+    let mut found: Vec<(usize, usize)> = vec![];
+    let mut kinds: BTreeSet<&str> = BTreeSet::new();
+    for (i, (kind, args)) in fam.iter().enumerate() {
+        let Some(t) = typed_text(ctx, &sb0, kind, args) else { continue };
+        if let Some(j) = seen.insert(t, i) {
+            // one pair per key type
+            if kinds.insert(kind) { found.push((j, i)); }
+        }
+    }
+    s.tally_n("search.numeric.keys", fam.len() as u64);
+    add_search_evals(s, fam.len() as u64);
+    for (j, i) in found {
+        s.tally("search.numeric.found");
+        for k in [j, i] {
+            emit(s, ctx, format!("typed flat {} {}", fam[k].0, fam[k].1.join(" ")));
+        }
+    }
+}
+
 fn wf_dotted(rng: &mut Rng) -> String {
     const N: &[&str] = &["data.000", "data.001", "data.tmp", "1.15.7", "1.15.8", "v2", "1", "1.tmp", "1.0", "a.b.c", "archive-01", "x.", ".x", "..", "."];
     rng.pick(N).to_string()
@@ -2100,6 +2275,33 @@ fn main() {
     for e in eps {
         emit(&mut s, &mut ctx, format!("query {}", enc(&e)));
     }
+    // 6a. (draws nothing from the random stream; in front of 6 so that an escape is the first
+    // failure reported) validators that stand in front of a path-building site, satisfied on a subset of the
+    // positions only (prefix / suffix / both ends / every other character) with traversal material
+    // in the rest: the archive key of download_archive_index / get_index_size stands seven levels
+    // below the cache directory, so these run in the deep sandbox with up to 11 ".." segments
+    {
+        let hex32 = "abcd0123456789ef0123456789abcdef";
+        let ups: &[usize] = if thorough { &[1, 2, 3, 4, 5, 6, 7, 8, 9, 10, 11] } else { &[3, 6, 7, 8, 9, 10] };
+        let ks: &[usize] = if thorough { &[1, 2, 3, 4, 5, 6, 8, 16, 32] } else { &[2, 4, 5, 8, 32] };
+        let mut forms = partial_valid_forms(hex32, ks, ups);
+        // the traversal tails first (an escape is reported before a merely accepted key)
+        forms.sort_by_key(|f| !f.contains("../"));
+        s.tally_n("gen.partial-valid.archive-key", forms.len() as u64);
+        for (i, ak) in forms.iter().enumerate() {
+            for (j, api) in ["indexd", "isized"].into_iter().enumerate() {
+                // the CDN path: mostly the usual two levels, sometimes none / one / three
+                let path = ["tpr/wow", "tpr/wow", "", "tpr", "tpr/configs/data"][(i + 2 * j) % 5];
+                emit(&mut s, &mut ctx, format!("cdn {api} ~ @ {} {} cu=0", enc(path), enc(ak)));
+            }
+        }
+        // the deep variants agree with the ordinary ones on well-formed keys
+        for ak in ["abcd", hex32, "ABCDEF01"] {
+            emit(&mut s, &mut ctx, format!("cdn indexd ~ @ {} {} cu=1", enc("tpr/wow"), enc(ak)));
+            emit(&mut s, &mut ctx, format!("cdn isized ~ @ {} {} cu=1", enc("tpr/wow"), enc(ak)));
+        }
+        emit(&mut s, &mut ctx, format!("cdn indexd ~ @ {} {} cu=0", enc("tpr/wow"), enc(&format!("abcd/{}x", "../".repeat(13)))));
+    }
     // 6. CDN: every key length 0..=32 through every entry point
     for len in 0..=32usize {
         let key = rng.bytes(len);
@@ -2343,6 +2545,34 @@ fn main() {
         let kind = ["stem.tmp", "name.tmp", "tmp", "name", "stem", "other.tmp"][i % 6];
         emit(&mut s, &mut ctx, format!("fmt idxtmp {} {kind}", hexkey(&mut rng)));
     }
+    // 13. the endpoint of RibbitTactClient::query stands behind "api/ribbit/": segments that pass
+    // validate_endpoint in front of (or behind) a ".." chain long enough to leave the root
+    {
+        let segs = ["v1", "products", "wow", "versions", "x"];
+        let mut n_forms = 0u64;
+        for j in 1..=segs.len() {
+            let head = segs[..j].join("/");
+            for n in [j + 2, j + 3, j + 5] {
+                let up = "../".repeat(n);
+                for ep in [format!("{head}/{up}escaped"), format!("{up}escaped/{head}"), format!("{head}/{up}escaped/{head}")] {
+                    if !thorough && n == j + 5 && j % 2 == 0 { continue; }
+                    emit(&mut s, &mut ctx, format!("queryd {}", enc(&ep)));
+                    n_forms += 1;
+                }
+            }
+        }
+        s.tally_n("gen.partial-valid.endpoint", n_forms);
+        for ep in ["v1/products/wow/versions", "v1/summary", "a/../b"] {
+            emit(&mut s, &mut ctx, format!("queryd {}", enc(ep)));
+        }
+        emit(&mut s, &mut ctx, format!("queryd {}", enc(&format!("v1/{}x", "../".repeat(13)))));
+    }
+    // 14. integer fields of the typed keys: one-bit neighbours (2^8, 2^16, 2^31, 2^32, 2^63 in the
+    // stream; every bit of every field in the text-level search)
+    for (kind, args) in numeric_families(false) {
+        emit(&mut s, &mut ctx, format!("typed flat {kind} {}", args.join(" ")));
+    }
+    numeric_search(&mut s, &mut ctx);
     // a few malformed requests
     for l in ["raw flat zz", "raw deep 61", "typed flat nokind 61", "cdn nope ~ @ 61 data 00 cu=1", "cdnx disk 61 0000", "cdnx tape 61 0000 index", "cdnx disk 61 0000 dl.nope", "cdnx disk 61 0000 range.data.1.0", "cdnx disk 61 0000 range.data.18446744073709551615.1", "cdnx disk 61 zz index", "hello", "fmt lru x", "ctor RibbitKey::nope 61", "ctor BlteKey::new zz", "stale nokind 61", "fmt seg 65536", "rdel deep 61", "arange 61 61 ~ 61 0 x cu=0"] {
         emit(&mut s, &mut ctx, l.to_string());
